@@ -1,6 +1,6 @@
 """C03 — the same model and seeds give the same run, every time and in every process.
 
-A case is a *batch* of 6-10 catalogue scenarios (``vfw/scenarios.py``) plus two hash seeds and a permutation
+A case is a *batch* of 8-12 catalogue scenarios (``vfw/scenarios.py``) plus two hash seeds and a permutation
 seed.  ``execute`` starts four fresh interpreters (``/venv/bin/python -m vfw.c03_worker``):
 
 * W0   PYTHONHASHSEED=0, the batch in order, then the first scenario a second time (W0': same process, after
@@ -64,7 +64,7 @@ def _int(x, default=0):
 
 
 def norm_case(case):
-    batch = [c for c in (case.get("batch") if isinstance(case, dict) else None) or [] if isinstance(c, dict)][:10]
+    batch = [c for c in (case.get("batch") if isinstance(case, dict) else None) or [] if isinstance(c, dict)][:12]
     if not batch:
         batch = [{"family": sorted(scenarios.SCENARIOS)[0], "seed": 0, "k": [0] * 8}]
     fams = sorted(scenarios.SCENARIOS)
@@ -276,13 +276,13 @@ def strategy(tier):
         return d
     sc = st.fixed_dictionaries({"seed": st.integers(0, 2**31 - 1), "k": st.lists(st.integers(0, 63), min_size=8, max_size=8)})
     return st.fixed_dictionaries({
-        "batch": st.lists(sc, min_size=6, max_size=10),
+        "batch": st.lists(sc, min_size=8, max_size=12),
         "hs": st.lists(st.integers(1, 2**32 - 1), min_size=2, max_size=2),
         "perm": st.integers(0, 10**6),
     }).map(assign)
 
 
-_RULE = ("batches of 6-10 catalogue scenarios (families assigned round-robin over the whole catalogue, seed and 8 knobs from "
+_RULE = ("batches of 8-12 catalogue scenarios (families assigned round-robin over the whole catalogue, seed and 8 knobs from "
          "Hypothesis) x 2 generated hash seeds x a generated permutation; each batch runs in 4 fresh interpreters (W0+W0', W1, W2, "
          "W0s); non-trivial = at least half of the scenarios of the batch have >= 50 deliveries over >= 2 instants and belong to a "
          "family declared (catalogue TRAITS) to iterate string-keyed dicts/sets, consume a module-level RNG, or route by hash")
